@@ -52,7 +52,7 @@ def cases(tier, rng):
         for i in range(14):
             extra = [[int(rng.integers(1, 11)) for _ in range(3)] for _ in range(6)]
             out.append({"kind": "direct", "shapes": shapes_even + shapes_mixed + extra, "tuples": "all"})
-        for _ in range(70):
+        for _ in range(98):
             out.append({"kind": "place", "n": 30})
     return out
 
